@@ -295,3 +295,30 @@ package server
 //@ call packetIDLimiter.pollPacketIDs#1 assert [C03] !cont && max == (client.opts.MaxInflight < 100 ? client.opts.MaxInflight : 100) && $arg0 == client.pl
 //@ call client.pollNewMessages#1 assert [C03] !cont && ids != nil && ids == at(client.pollNewMessages#1, ids)
 //@ call packetIDLimiter.batchRelease#1 assert [C03] $arg0 == client.pl
+
+// C13 — inbound Maximum Packet Size (client.readHandle): a v5 connection whose server-side maximum packet size is set
+// never has a packet larger than that maximum handled — the connection ends with reason 0x95 (Packet too large)
+// instead; a packet within the limit is never refused for its size.
+//@ spec func sizeOK(c *client, p packets.Packet) bool = !(c.version == 5 && c.opts.ServerMaxPacketSize != 0 && totalBytes(p) > c.opts.ServerMaxPacketSize)
+//@ func (*client).unsubscribeHandler trusted
+//@ requires client != nil
+//@ func (*client).reAuthHandler trusted
+//@ requires client != nil
+//@ func (*client).readHandle
+//@ props C13
+//@ requires [C13] client != nil && client.opts != nil && client.in != nil
+//@ modifies heap, ghost(client.$nout), ghost(client.$lastOut)
+// (this is the dispatcher: what each handler needs and changes is the subject of the handlers' own contracts; here only
+// the size gate in front of them is checked, iteration by iteration)
+//@ waive panic requires frame nil assert-type
+//@ call client.subscribeHandler#1 assert [C13] sizeOK(client, packet)
+//@ call client.publishHandler#1 assert [C13] sizeOK(client, packet)
+//@ call client.pubackHandler#1 assert [C13] sizeOK(client, packet)
+//@ call client.pubrelHandler#1 assert [C13] sizeOK(client, packet)
+//@ call client.pubrecHandler#1 assert [C13] sizeOK(client, packet)
+//@ call client.pubcompHandler#1 assert [C13] sizeOK(client, packet)
+//@ call client.pingreqHandler#1 assert [C13] sizeOK(client, packet)
+//@ call client.unsubscribeHandler#1 assert [C13] sizeOK(client, packet)
+//@ call client.disconnectHandler#1 assert [C13] sizeOK(client, packet)
+//@ call client.reAuthHandler#1 assert [C13] sizeOK(client, packet)
+//@ call NewError#1 assert [C13] !sizeOK(client, packet) && code == 149
